@@ -105,6 +105,16 @@ pub fn show_reads(reads: &[Vec<u8>], rng: &mut Rng, with_exts: bool) -> String {
         .join(",")
 }
 
+/// one read in which a k-mer is observed more often than a u16 count can tell: a run of 65 600..70 000 equal bases with up to
+/// two other bases before it and up to three after it (the run's first and last observations carry flanks no other does)
+pub fn saturating_read(rng: &mut Rng) -> Vec<u8> {
+    let b = rng.below(4) as u8;
+    let mut r: Vec<u8> = (0..rng.below(3)).map(|_| rng.below(4) as u8).collect();
+    r.extend(std::iter::repeat(b).take(rng.range(65600, 70000)));
+    r.extend((0..rng.below(4)).map(|_| rng.below(4) as u8));
+    r
+}
+
 /// k-mer types used by the graph-level requests (K >= 4)
 #[macro_export]
 macro_rules! with_graph_kmer {
@@ -132,7 +142,7 @@ macro_rules! with_graph_kmer {
     };
 }
 
-pub const QUICK_KS: [usize; 8] = [4, 5, 6, 8, 12, 16, 31, 32];
+pub const QUICK_KS: [usize; 11] = [4, 5, 6, 8, 12, 16, 31, 32, 40, 48, 64];
 pub const ALL_KS: [usize; 17] = [4, 5, 6, 8, 10, 12, 14, 15, 16, 20, 24, 30, 31, 32, 40, 48, 64];
 
 pub fn pick_k(rng: &mut Rng, tier: &str) -> usize {
